@@ -161,7 +161,9 @@ func snapshotTree(root string) map[string]string {
 	return out
 }
 
-var c19IDs = []string{"a", "b", "./a", "a/", "a//b", "a/../b", "b/.", "../x", "/etc/passwd", "a/b", "..", ".", "é", "\x00", "a\nb", " ", strings.Repeat("L", 4096), "c:\\d", "%2e%2e%2f", "\xff\xfe"}
+var c19IDs = []string{"a", "b", "./a", "a/", "a//b", "a/../b", "b/.", "../x", "/etc/passwd", "a/b", "..", ".", "é", "\x00", "a\nb", " ", strings.Repeat("L", 4096), "c:\\d", "%2e%2e%2f", "\xff\xfe",
+	// identifiers that differ from another one only by surrounding white space
+	"a ", " a", "b\t", "\u00a0b", "a\u3000", "\na"}
 
 var c19LongIDs = []string{strings.Repeat("L", 4096), strings.Repeat("n", 256), strings.Repeat("d/", 1100), "pkg:" + strings.Repeat("é", 1500)}
 
